@@ -308,8 +308,9 @@ def allclose_phase(A, B, tol=1e-8):
     if abs(B[i]) < 1e-12:
         return np.allclose(A, B, atol=tol)
     ph = A[i] / B[i]
-    if abs(abs(ph) - 1) > 1e-7:
+    if abs(abs(ph) - 1) > max(1e-7, 10 * tol):
         return False
+    ph = ph / abs(ph)
     return np.allclose(A, ph * B, atol=tol * max(1.0, np.abs(B).max()))
 
 
